@@ -467,6 +467,39 @@ def kind_of(ms):
     return "plain"
 
 
+def errtag(v):
+    """exception class + first words of its message (digits dropped): part of the signature of a failing step"""
+    if not isinstance(v, (list, tuple)) or len(v) < 3:
+        return str(v)
+    import re as _re
+    txt = _re.sub(r"SPSDK:\s*", "", str(v[2]))
+    cls_, _, msg = txt.partition(":")
+    words = _re.sub(r"[^A-Za-z ]", " ", msg).split()[:4]
+    return cls_.strip() + ("-" + "-".join(words) if words else "")
+
+
+def diff_regions(a, b, kind):
+    """where two images differ: names of the regions (part of the signature of a re-export difference)"""
+    if len(a) != len(b):
+        return "length"
+    regs = set()
+    for i in range(len(a)):
+        if a[i] != b[i]:
+            if 0x20 <= i < 0x24:
+                regs.add("ivt20")
+            elif 0x24 <= i < 0x28:
+                regs.add("ivt24")
+            elif 0x28 <= i < 0x2C:
+                regs.add("ivt28")
+            elif 0x34 <= i < 0x38:
+                regs.add("ivt34")
+            elif kind == "bca" and 0x3C0 <= i < 0x400:
+                regs.add("bca")
+            else:
+                regs.add("other")
+    return "+".join(sorted(regs))
+
+
 def looks_like_reloc_tail(b):
     return len(b) >= 16 and w32(b, len(b) - 16) == 0x4C54424C and w32(b, len(b) - 12) == 0
 
@@ -578,7 +611,7 @@ def oracle(case, res, db):
                 fail("header:cert-offset", f"no certificate block at the offset announced by IVT word 0x28 ({w28:#x})")
     # ---- parse(export(x)) = x
     if res.get("parse") != "ok":
-        fail("roundtrip:parse-fails", f"SPSDK cannot parse its own export: {res.get('parse')}")
+        fail(f"roundtrip:parse-fails[{errtag(res.get('parse'))}]", f"SPSDK cannot parse its own export: {res.get('parse')}")
         return out
     if res.get("observe") != "ok":
         fail("roundtrip:parsed-object-broken", f"parsed object cannot be read: {res.get('observe')}")
@@ -612,11 +645,11 @@ def oracle(case, res, db):
         fail("roundtrip:digest", "manifest digest algorithm differs after parse")
     # ---- re-export reproduces every byte outside the signature
     if res.get("create_config") != "ok":
-        fail("create_config:fails", f"create_config of the parsed image fails: {res.get('create_config')}")
+        fail(f"create_config:fails[{errtag(res.get('create_config'))}]", f"create_config of the parsed image fails: {res.get('create_config')}")
         return out
     for step, key in (("reexport", "image2"), ("reexport_direct", "image3")):
         if res.get(step) != "ok":
-            fail(f"{step}:fails", f"the parsed image cannot be exported again: {res.get(step)}")
+            fail(f"{step}:fails[{errtag(res.get(step))}]", f"the parsed image cannot be exported again: {res.get(step)}")
             continue
         im2 = bytes.fromhex(res[key])
         a, b = bytearray(image), bytearray(im2)
@@ -645,7 +678,7 @@ def oracle(case, res, db):
         if bytes(a) != bytes(b):
             n = sum(1 for i in range(min(len(a), len(b))) if a[i] != b[i])
             first = next((i for i in range(min(len(a), len(b))) if a[i] != b[i]), min(len(a), len(b)))
-            fail(f"{step}:differs", f"re-exported image differs outside the signature: lengths {len(a)}/{len(b)}, {n} bytes, first at {first:#x}")
+            fail(f"{step}:differs[{diff_regions(bytes(a), bytes(b), kind)}]", f"re-exported image differs outside the signature: lengths {len(a)}/{len(b)}, {n} bytes, first at {first:#x}")
     if res.get("schema2") not in (None, "ok"):
         m = __import__("re").search(r"data\.(\w+)", str(res["schema2"])) or __import__("re").search(r"Missing field\(s\): (\w+)", str(res["schema2"]))
         fail(f"create_config:schema-rejects({m.group(1) if m else '?'})",
@@ -657,7 +690,7 @@ def oracle(case, res, db):
 def clean_work():
     """remove the scratch data of a run (proposed_fix_*.diff files written for the lead are kept)"""
     import glob
-    for f in glob.glob(os.path.join(WORKDIR, "impl*")) + glob.glob(os.path.join(WORKDIR, "dump.json")):
+    for f in glob.glob(os.path.join(WORKDIR, f"impl{os.getpid()}_*")) + glob.glob(os.path.join(WORKDIR, "dump.json")):
         shutil.rmtree(f, ignore_errors=True) if os.path.isdir(f) else os.remove(f)
 
 
@@ -712,7 +745,7 @@ def run(tier):
 
     def run_chunk(ic):
         i, ch = ic
-        return vlib.run_impl("c01_impl.py", {"repo": vlib.REPO, "work": os.path.join(WORKDIR, f"impl{i}"),
+        return vlib.run_impl("c01_impl.py", {"repo": vlib.REPO, "work": os.path.join(WORKDIR, f"impl{os.getpid()}_{i}"),
                                              "cases": [c for _, c in ch]}, timeout=3000)["results"]
     t_impl = __import__("time").time()
     with ThreadPoolExecutor(max_workers=8) as ex:
@@ -728,6 +761,8 @@ def run(tier):
             f = db.fams[db.fidx[case["family"]]]
             res["parsed_mixins_short"] = short(f["classes"][res["parsed_class"]]["mixins"])
         for sig, msg in oracle(case, res, db):
+            if os.environ.get("C01_DEBUG_SIGS"):
+                vlib.log(f"  SIG {sig}")
             rep.failing(sig, f"{case['family']} {case['target']}/{case['auth']} app {len(case['app']) // 2} B: {msg}",
                         {"kind": "impl-oracle", "case": case, "class": res.get("class"), "signature": sig,
                          "steps": {k: res.get(k) for k in ("load", "export", "parse", "observe", "create_config",
